@@ -85,7 +85,8 @@ var QIdents = []strForm{{`"a\tb"`, `a\tb`}, {`"C:\data"`, `C:\data`}, {`"dom\use
 
 var Backticks = []strForm{{"`abc`", "abc"}, {"`select`", "select"}, {"`my col`", "my col"}, {"`order`", "order"}}
 
-var DollarStrs = []strForm{{"$$body$$", "body"}, {"$tag$ it's $tag$", " it's "}, {"$q$a $$ b$q$", "a $$ b"}, {"$$$$", ""}, {"$$order by$$", "order by"}, {"$k$LEFT JOIN$k$", "LEFT JOIN"}}
+var DollarStrs = []strForm{{"$$body$$", "body"}, {"$tag$ it's $tag$", " it's "}, {"$q$a $$ b$q$", "a $$ b"}, {"$$$$", ""}, {"$$order by$$", "order by"}, {"$k$LEFT JOIN$k$", "LEFT JOIN"},
+	{"$fn$SELECT $1 + $2$fn$", "SELECT $1 + $2"}, {"$$SELECT $1$$", "SELECT $1"}, {"$q$cost in $us$q$", "cost in $us"}, {"$a$x$1$a$", "x$1"}, {"$a$ $b$ inner $b$ $a$", " $b$ inner $b$ "}}
 
 func isWordByte(b byte) bool {
 	return b == '_' || b >= '0' && b <= '9' || b >= 'a' && b <= 'z' || b >= 'A' && b <= 'Z' || b >= 0x80
